@@ -248,7 +248,10 @@ RULE = (
     "under Mask.NONE / Mask.FLEX / a fixed mask array with plain and masked-array payloads, every unmasked cell judged; links through adapters that change the "
     "unit dimension (an SDK adapter overriding _get_info that relabels the data with any catalogue unit: full value "
     "semantics; SumOverTime(per_time=True) and Histogram: verdict of the connect phase) with consumers compatible / "
-    "incompatible with the DELIVERED units; 30% of the to_units/prepare/link payloads have an integer dtype (int64/int32/int16, "
+    "incompatible with the DELIVERED units; fill ops (a state reset with full_like(template, "
+    "Quantity in foreign units) and published) and chain ops (a real Composition: generator -> component whose input "
+    "declares its own units and whose output info comes from connector.in_infos or a FromInput rule, pushing plain "
+    "doubled magnitudes -> consumer); 30% of the to_units/prepare/link payloads have an integer dtype (int64/int32/int16, "
     "plain and masked; the expected numbers are the exact rational conversion of the integers); 40% of the links are static (Output(static) >> Input(static), one publication) and "
     "links are read 1-4 times, every read judged; non-trivial = a session that repeats a pair after it was "
     "cached, contains a clear, and contains compatible-not-equivalent, equivalent-not-identical and incompatible pairs; "
@@ -321,6 +324,23 @@ def pure(op):
         return ["bool", compat(op[1], op[2])]
     if k == "accsum":
         return ["bool", DIMS[op[1]] == _sum_dims(op[2])]
+    if k == "fill":
+        f, a, b, x = op[1], op[2], op[3], F(op[4])
+        if not compat(f, a):
+            return ["err", "DimensionalityError"]
+        if not compat(a, b):
+            return ["err", "MetaDataError"]
+        xs, sl1 = conv(f, a, x), slack(f, a, x)
+        g = _pure_to_units(a, b, True, xs)
+        return ["link", CID[a], True, xs, sl1, CID[g[1]], True, g[3], slack(a, b, xs) + sl1 * FAC[a] / FAC[b]]
+    if k == "chain":
+        s_, m, d, x = op[1], op[2], op[3], F(op[4])
+        if not compat(s_, m) or not compat(m, d):
+            return ["err", "MetaDataError"]
+        g1 = _pure_to_units(s_, m, True, x)
+        xs, sl1 = 2 * g1[3], 2 * slack(s_, m, x)
+        g2 = _pure_to_units(m, d, True, xs)
+        return ["link", CID[m], g1[2], xs, sl1, CID[g2[1]], g1[2] or g2[2], g2[3], slack(m, d, xs) + sl1 * FAC[m] / FAC[d]]
     if k == "alink":
         kk, a, d, b, x = op[1], op[2], op[3], op[4], F(op[5])
         if not compat(b, d):
@@ -396,6 +416,12 @@ def _mk_op(rng, kind, i, j, third=None):
         a = rng.randrange(NCAT)
         k = None if rng.random() < 0.2 else _same_dim(rng, a) if rng.random() < 0.85 else rng.randrange(NCAT)
         return ["alink", k, a, i, j, rng.choice(XS)]
+    if kind == "fill":  # i = units of the state / output, j = units of the consumer
+        f = _same_dim(rng, i) if rng.random() < 0.9 else rng.randrange(NCAT)
+        return ["fill", f, i, j, rng.choice(XS), rng.randrange(3)]
+    if kind == "chain":  # i = own units of the component in the middle, j = units of the consumer
+        s_ = _same_dim(rng, i) if rng.random() < 0.9 else rng.randrange(NCAT)
+        return ["chain", s_, i, j, rng.choice(XS), rng.randrange(2)]
     if kind == "adapt":
         # (temperature sources are left out: SumOverTime fails inside pint for offset units, and a summed
         #  degC/h is a delta unit, which pint refuses to compare with degC/K/degF - see WITNESS_DELTA)
@@ -440,10 +466,11 @@ def _focus_session(rng, n):
         i, j, k = rng.choice(names), rng.choice(names), rng.choice(names)
         if ops and len(ops[-1]) > 2 and rng.random() < 0.25:  # reversed / repeated pair of the previous op
             p = ops[-1]
-            a, b = (p[2], p[3]) if p[0] in ("link", "adapt") else (p[3], p[4]) if p[0] == "alink" else (p[1], p[2])
+            a, b = (p[2], p[3]) if p[0] in ("link", "adapt", "fill", "chain") else (p[3], p[4]) if p[0] == "alink" else (p[1], p[2])
             i, j = (b, a) if rng.random() < 0.6 else (a, b)
         r = rng.random()
-        kind = "alink" if r < 0.08 else "adapt" if r < 0.12 else rng.choice(OPK[:6]) if r < 0.96 else "same"
+        kind = ("alink" if r < 0.07 else "adapt" if r < 0.11 else "fill" if r < 0.18 else "chain" if r < 0.25 else
+                rng.choice(OPK[:6]) if r < 0.96 else "same")
         ops.append(_mk_op(rng, kind, i, j, k))
     return {"ops": ops}
 
@@ -460,7 +487,7 @@ def _sweep_sessions(rng, per):
             r = rng.random()
             kind = ("compat" if r < 0.2 else "equiv" if r < 0.4 else "to_units" if r < 0.55 else
                     "prepare" if r < 0.67 else "accepts" if r < 0.72 else "same" if r < 0.75 else
-                    "alink" if r < 0.82 else "adapt" if r < 0.86 else "link")
+                    "alink" if r < 0.8 else "adapt" if r < 0.83 else "fill" if r < 0.87 else "chain" if r < 0.91 else "link")
             third = _same_dim(rng, i) if rng.random() < 0.8 else None
             ops.append(_mk_op(rng, kind, i, j, third))
             if rng.random() < 0.3:  # ask the other half of the memo entry as well
@@ -474,6 +501,18 @@ def _i(n):
 
 
 CORPUS = [
+    # seeded/C17_j: full_like with a fill value that is a QUANTITY in foreign units must convert the fill value
+    # (1.5 km into an m state -> 1500 m -> consumer cm 150000); seeded/C17_k: a component whose input declares its own
+    # units and whose output info is derived from connector.in_infos / FromInput pushes plain numbers in ITS units
+    {"ops": [["fill", _i("km"), _i("m"), _i("cm"), 1.5, 0], ["fill", _i("degC"), _i("K"), _i("degC"), 20.0, 1],
+             ["fill", _i("%"), _i("1"), _i("ppm"), 30.0, 2], ["fill", _i("mm/d"), _i("m/s"), _i("mm/h"), 12.0, 0],
+             ["fill", _i("degF"), _i("degC"), _i("K"), -40.0, 1], ["fill", _i("mbar"), _i("hPa"), _i("Pa"), 1013.25, 0],
+             ["fill", _i("m"), _i("m"), _i("km"), 1.5, 2], ["fill", _i("s"), _i("m"), _i("m"), 1.0, 0], ["fill", _i("km"), _i("m"), _i("s"), 1.0, 0],
+             ["chain", _i("m"), _i("mm"), _i("m"), 1.5, 0], ["chain", _i("m"), _i("mm"), _i("m"), 1.5, 1],
+             ["chain", _i("degC"), _i("K"), _i("degC"), 20.0, 0], ["chain", _i("degC"), _i("degF"), _i("K"), 20.0, 1],
+             ["chain", _i("km"), _i("m"), _i("km"), 2.5, 1], ["chain", _i("%"), _i("1"), _i("%"), 30.0, 0],
+             ["chain", _i("Hz"), _i("1/s"), _i("s-1"), 2.5, 1], ["chain", _i("m"), _i("m"), _i("m"), 1.0, 0],
+             ["chain", _i("m"), _i("s"), _i("m"), 1.0, 0], ["chain", _i("m"), _i("mm"), _i("s"), 1.0, 1]]},
     # seeded/C17_g: an adapter on the link changes the units; the consumer's units must be judged against the
     # units the adapter DELIVERS (refused with a metadata error when the dimension differs, converted otherwise)
     {"ops": [["alink", _i("kg"), _i("kg"), _i("kg m-2 s-1"), _i("kg m-2 s-1"), 2.5], ["alink", _i("kg"), _i("kg"), _i("kg m-2 s-1"), _i("kg"), 2.5],
@@ -582,6 +621,74 @@ def _fr(x):
 
 def _frs(fr):
     return [str(fr.numerator), str(fr.denominator)]
+
+
+_DOUBLER = None
+
+
+def _run_chain(fm, np, s_, m, d, x, style):
+    """generator [s_] --> (In declared in m) Doubler (Out: info derived from the input) --> consumer [d], run by a
+    real Composition; returns (what the Doubler's output held after its last push, what the consumer received)"""
+    global _DOUBLER
+    from datetime import timedelta
+    from ..fin import T
+    from finam.components.debug import DebugConsumer
+    from finam.components.generators import CallbackGenerator
+
+    t0, day = T(0), timedelta(days=1)
+    if _DOUBLER is None:
+        class Doubler(fm.TimeComponent):
+            """doubles its input; computes with plain magnitudes in the units declared for its input"""
+
+            def __init__(self, units, style):
+                super().__init__()
+                self.time = t0
+                self._units = units
+                self._style = style
+                self.last = None
+
+            def _next_time(self):
+                return self.time + day
+
+            def _initialize(self):
+                self.inputs.add(name="In", time=self.time, grid=None, units=self._units)
+                self.outputs.add(name="Out")
+                rules = {"Out": [fm.tools.FromInput("In")]} if self._style == 1 else None
+                self.create_connector(pull_data=["In"], out_info_rules=rules)
+
+            def _connect(self, start_time):
+                push_infos, push_data = {}, {}
+                in_info = self.connector.in_infos["In"]
+                if self._style == 0 and in_info is not None and not self.connector.infos_pushed["Out"]:
+                    push_infos["Out"] = in_info.copy_with()
+                in_data = self.connector.in_data["In"]
+                if in_data is not None and not self.connector.data_pushed["Out"]:
+                    push_data["Out"] = 2.0 * fm.data.get_magnitude(in_data)
+                self.try_connect(start_time, push_infos=push_infos, push_data=push_data)
+
+            def _validate(self):
+                pass
+
+            def _update(self):
+                self.time += day
+                data = self.inputs["In"].pull_data(self.time)
+                self.outputs["Out"].push_data(2.0 * fm.data.get_magnitude(data), self.time)
+                self.last = self.outputs["Out"].data[-1][1]
+
+            def _finalize(self):
+                pass
+
+        _DOUBLER = Doubler
+    src = CallbackGenerator(
+        callbacks={"Out": (lambda t: np.asarray(x, dtype=float), fm.Info(time=t0, grid=fm.NoGrid(), units=s_))},
+        start=t0, step=day)
+    mid = _DOUBLER(m, style)
+    sink = DebugConsumer(inputs={"In": fm.Info(time=None, grid=None, units=d)}, start=t0, step=day)
+    comp = fm.Composition([src, mid, sink], log_level="CRITICAL")
+    src.outputs["Out"] >> mid.inputs["In"]
+    mid.outputs["Out"] >> sink.inputs["In"]
+    comp.run(start_time=t0, end_time=t0 + day)
+    return mid.last, sink.data["In"]
 
 
 _RELABEL = None
@@ -724,6 +831,25 @@ def run_impl(case):
                 st = out.data[-1][1]
                 got = inp.pull_data(t0)
                 res.append(["link", _label(st.units), _frs(_fr(st.magnitude)), _label(got.units), _frs(_fr(got.magnitude))])
+            elif k == "fill":
+                f, a, b, x, tmpl = op[1], op[2], op[3], op[4], (op[5] if len(op) > 5 else 0)
+                # a component resets its state (declared in a) with a fill value in foreign units ...
+                template = [np.zeros(()), np.array(7.0), np.full((), -1.0)][tmpl]  # float templates only
+                state = tools.full_like(Qn(template, fm.UNITS.Unit(NAMES[a])), Qn(x, fm.UNITS.Unit(NAMES[f])))
+                # ... and publishes it
+                out = fm.Output(name="Out")
+                inp = fm.Input(name="In")
+                out >> inp
+                inp.ping()
+                out.push_info(fm.Info(time=t0, grid=fm.NoGrid(), units=NAMES[a]))
+                inp.exchange_info(fm.Info(time=t0, grid=fm.NoGrid(), units=NAMES[b]))
+                out.push_data(state, t0)
+                st = out.data[-1][1]
+                got = inp.pull_data(t0)
+                res.append(["link", _label(st.units), _frs(_fr(st.magnitude)), _label(got.units), _frs(_fr(got.magnitude))])
+            elif k == "chain":
+                st, got = _run_chain(fm, np, NAMES[op[1]], NAMES[op[2]], NAMES[op[3]], op[4], op[5] if len(op) > 5 else 0)
+                res.append(["link", _label(st.units), _frs(_fr(st.magnitude)), _label(got.units), _frs(_fr(got.magnitude))])
             elif k == "adapt":
                 _, kind, a, b = op
                 out = fm.Output(name="Out")
@@ -771,6 +897,10 @@ def _coq_op(op):
         a = op[2]
         d = "[" + ";".join(str(e) for e in _sum_dims(a)) + "]%Z"
         return C("Accepts", _U(op[1]), C("mkE", N(1000 + CID[a]), C("mkU", d, Q(FAC[a]), Q(0))))
+    if k == "fill":
+        return C("Fill", _U(op[1]), _U(op[2]), _U(op[3]), Q(F(op[4])))
+    if k == "chain":
+        return C("Chain", _U(op[1]), _U(op[2]), _U(op[3]), Q(F(op[4])))
     if k == "alink":
         return C("ALink", NONE if op[1] is None else Some(_U(op[1])), _U(op[2]), _U(op[3]), _U(op[4]), Q(F(op[5])))
     if k == "to_units":
@@ -865,7 +995,7 @@ def _show(op):
     if k == "clear":
         return "clear"
     idx = {"compat": (1, 2), "equiv": (1, 2), "same": (1, 2), "accepts": (1, 2), "to_units": (1, 2), "prepare": (1, 2), "link": (1, 2, 3),
-           "alink": (1, 2, 3, 4), "adapt": (2, 3), "accsum": (1, 2)}[k]
+           "alink": (1, 2, 3, 4), "adapt": (2, 3), "accsum": (1, 2), "fill": (1, 2, 3), "chain": (1, 2, 3)}[k]
     for p in idx:
         o[p] = None if o[p] is None else NAMES[o[p]]
     return o
@@ -900,6 +1030,8 @@ def _pairs(op):
         return [(op[4], op[3])] + ([(op[1], op[2])] if op[1] is not None else [])
     if k == "adapt":
         return [(op[2], op[3])]
+    if k in ("fill", "chain"):
+        return [(op[1], op[2]), (op[2], op[3])]
     return [(op[1], op[2])]
 
 
